@@ -339,7 +339,7 @@ Proof.
     rewrite ce_unwrap in Hchk. apply andb3 in Hchk as [_ [Hr Hc]].
     destruct (IHev _ _ Heq HI HC Hr) as [HI1 [HC1 L1]].
     cbn [chk_unwrap cfg_fixed andb] in Hc. apply negb_true_iff in Hc. rewrite Heq in Hc.
-    destruct (reg_local_inv _ _ x v HI1 HC1 Hc) as [HI2 HC2]. auto.
+    destruct (reg_var_same_inv _ _ x v HI1 HC1 Hc) as [HI2 HC2]. auto.
 Qed.
 
 (* ---------------------------------------------------------------- statements, blocks, loops *)
